@@ -344,7 +344,7 @@ func (p *P) Run(src *tape.Source, trace bool) *core.Result {
 		}
 		fullAt[ks[len(ks)-1]] = true
 	}
-	rot := src.Intn(len(probe.Inputs), "c11.rot")
+	rot := src.Intn(probe.Rotations(), "c11.rot")
 	sh := shape(sql)
 	observedInside := false
 	for _, k := range ks {
@@ -496,14 +496,14 @@ func tokBattery(t *tokenizer.Tokenizer, full bool, rot int) []probe.Res {
 	if full {
 		return probe.TokBattery(t, rot)
 	}
-	return probe.TokBatteryCheap(t)
+	return probe.TokBatteryCheap(t, rot)
 }
 
 func parBattery(p *parser.Parser, full bool, rot int) []probe.Res {
 	if full {
 		return probe.ParBattery(p, rot)
 	}
-	return probe.ParBatteryCheap(p)
+	return probe.ParBatteryCheap(p, rot)
 }
 
 func poolName(site string) string {
